@@ -131,7 +131,7 @@ def check_c14(ctx):
     vlib.build_worker(ctx)
     maxchain, pk = tier_params(ctx)
     rep = vlib.Report(ctx)
-    pairs = run_codec(ctx, ['single', 'pair', 'ext', 'payload', 'chain'], maxchain, pk)
+    pairs = run_codec(ctx, ['single', 'pair', 'ext', 'payload', 'chain', 'odd'], maxchain, pk)
     collect(ctx, rep, pairs, ['c14'], lambda o, v: 'gob=%s %s' % (o.get('gob'), o.get('gobdiff', '')), lambda o, v: o.get('gob') != 'na')
     return rep.finish(
         'model_checking',
@@ -146,7 +146,7 @@ def check_c15(ctx):
     vlib.build_worker(ctx)
     maxchain, pk = tier_params(ctx)
     rep = vlib.Report(ctx)
-    pairs = run_codec(ctx, ['single', 'pair', 'ext', 'chain'], maxchain, pk)
+    pairs = run_codec(ctx, ['single', 'pair', 'ext', 'chain', 'odd'], maxchain, pk)
     collect(ctx, rep, pairs, ['c15'], lambda o, v: 'pointers=%s' % [(b['ptr'], b['err'][:60] or b['typed'][:40], b['json'][:40]) for b in o['badptr'] if b['ptr'] in v['bad15']][:3],
             lambda o, v: o.get('nptr', 0) > 0)
     rep.counts['pointers_evaluated'] = sum(o.get('nptr', 0) for o, v in pairs)
